@@ -46,6 +46,7 @@ def mail(rng, kind=None):
     if kind == 'badext': return b'MAIL FROM:<' + s + b'>x\r\n'
     if kind == 'syntax': return b'MAIL FROM:<' + rng.choice(SYNTAX) + b'>\r\n'
     if kind == 'localno': return b'MAIL FROM:<nobody@example.org>\r\n'
+    if kind == 'nobracket': return b'MAIL FROM:' + rng.choice([b'', b' ']) + s + b'\r\n'
     return b'MAIL FROM:  <' + s + b'>\r\n'
 
 
@@ -175,3 +176,117 @@ def auth_session(rng):
     return chunks
 
 
+
+
+# ---------------------------------------------------------------- submission mode (configuration port=587)
+# smtp_from demands is_authenticated() (AUTH on this connection or the relay list); smtp_data appends the missing ones of
+# Date / From / Message-Id behind the last header line.  The generators aim at the case split of the proof: every subset of
+# the three names, any order and case, duplicates (550), near misses that are NOT the field, lines starting with dots
+# (not looked at), 8-bit octets in the header (550 here, as in strict mode), empty header, no body, nothing at all.
+SUBM_FIELDS = [(b'Date', b'Mon, 1 Jan 2001 00:00:00 +0000'), (b'From', b'<a@example.net>'), (b'Message-Id', b'<1@c.example.net>')]
+SUBM_NEAR = [b'Date', b'Dat: x', b'Date : x', b'XDate: y', b' Date: z', b'From', b'Fro: x', b'>From: a', b'Message-Id', b'Message-I: x', b'MessageId: x',
+             b'Message-ID ', b'Resent-Date: x', b'Resent-From: <r@example.net>']
+
+
+def _anycase(rng, name):
+    k = rng.random()
+    if k < 0.4: return name
+    if k < 0.6: return name.upper()
+    if k < 0.8: return name.lower()
+    return bytes(c ^ 0x20 if chr(c).isalpha() and rng.random() < 0.5 else c for c in name)
+
+
+def subm_header(rng, hidden=False):
+    """header lines (as transmitted).  hidden: allow a line that hides one of the three names behind a needless leading dot
+    (known finding F-C02-2: stored as the field, not seen by the header check)"""
+    lines = []
+    present = [f for f in SUBM_FIELDS if rng.random() < 0.5]
+    rng.shuffle(present)
+    for name, val in present:
+        lines.append(_anycase(rng, name) + b':' + rng.choice([b' ', b' ', b'', b'\t']) + val)
+    r = rng.random()
+    if r < 0.08 and present:
+        name, val = rng.choice(present)                      # duplicate: 550 "more than one"
+        lines.insert(rng.randrange(len(lines) + 1), _anycase(rng, name) + b': again')
+    for _ in range(rng.choice([0, 0, 1, 2, 3])):
+        lines.insert(rng.randrange(len(lines) + 1),
+                     rng.choice([b'Subject: s', b'Received: from a by b', b'X-Y: z', rng.choice(SUBM_NEAR), rng.choice(SUBM_NEAR),
+                                 b'.dotted: 1', b'..', b'...x', b'.Subject: hidden', b'..Date: two dots', b'X-Long: ' + b'h' * rng.choice([989, 990])]))
+    if rng.random() < 0.06:
+        lines.insert(rng.randrange(len(lines) + 1), rng.choice([b'X-8bit: \xe4\xf6', b'Subject: caf\xe9', b'\xffDate: x']))    # 8-bit in the header: 550
+    if rng.random() < 0.08:
+        lines.insert(rng.randrange(len(lines) + 1), b'.\xe4 eight bit behind a dot')       # not looked at
+    if hidden:
+        name, val = rng.choice(SUBM_FIELDS)
+        lines.insert(rng.randrange(len(lines) + 1), b'.' + _anycase(rng, name) + b': hidden')
+    return lines
+
+
+def subm_payload(rng, hidden=False, target=None):
+    """a DATA payload for the submission port.  target: pad the body so that the server's size counter ends at this value"""
+    style = rng.choice(['hdr+body', 'hdr+body', 'hdr+body', 'nobody', 'nohdr', 'empty', 'hdr+emptybody'])
+    lines = []
+    if style in ('hdr+body', 'nobody', 'hdr+emptybody'):
+        lines += subm_header(rng, hidden)
+    elif hidden:
+        lines.append(b'.From: hidden')
+    if style in ('hdr+body', 'nohdr', 'hdr+emptybody'):
+        lines.append(b'')
+    if style in ('hdr+body', 'nohdr'):
+        for _ in range(rng.choice([1, 2, 4])):
+            lines.append(rng.choice([b'hello', b'', b'..', b'.x', b'Date: in the body', b'From: in the body', b'Message-Id: in the body',
+                                     b'\xe4 8bit body', b'y' * rng.choice([1, 70, 300])]))
+    if target is not None:
+        size = sum(len(l[1:] if l[:1] == b'.' else l) + 2 for l in lines)
+        if b'' not in lines:
+            lines.append(b''); size += 2
+        if target - size - 2 >= 0 and target - size - 2 <= 990:
+            lines.append(b'p' * (target - size - 2))
+    return b''.join(l + b'\r\n' for l in lines) + b'.\r\n'
+
+
+def subm_config(rng, entitled=None, qq=None):
+    """cfg string for port 587.  entitled: 'relay' (listed in relayclients), 'auth' (backend configured), None = random incl. neither"""
+    entitled = entitled if entitled is not None else rng.choice(['relay', 'auth', 'auth', 'both', 'none'])
+    relay = 'listed' if entitled in ('relay', 'both') else rng.choice(['none', 'none', 'unlisted', 'badsize', 'unreadable'] if entitled == 'none' else ['none', 'unlisted'])
+    cfg = ['relay=' + relay, 'ip=' + rng.choice(['v4', 'v4', 'v6']), 'port=587', 'auth=' + ('1' if entitled in ('auth', 'both') or rng.random() < 0.3 else '0'),
+           'databytes=' + rng.choice(['0', '0', '0', '300', '1000']), 'check2822=' + rng.choice(['0', '0', '0', '1']),
+           'qq=' + (qq or ','.join(rng.choice(['ok', 'ok', 'ok', 'ok', 'ok', 'exit:31', 'die:b:0:1', 'die:m:5:sig', 'ce:1']) for _ in range(4)))]
+    return ';'.join(cfg), entitled
+
+
+def subm_session(rng, hidden=False):
+    """(cfg, chunks): a session on the submission port: greeting, AUTH or not, one to three transactions"""
+    cfg, entitled = subm_config(rng)
+    db = int(dict(kv.split('=', 1) for kv in cfg.split(';'))['databytes'])
+    chunks = [rng.choice([b'EHLO c.example.net\r\n', b'EHLO c.example.net\r\n', b'HELO c.example.net\r\n'])]
+    r = rng.random()
+    if entitled in ('auth', 'both') and r < 0.85: chunks.append(auth_line(rng, 'good'))
+    elif r < 0.3: chunks.append(auth_line(rng, rng.choice(['wrongpw', 'good', 'mech', 'crash'])))
+    for _ in range(rng.choice([1, 1, 2, 3])):
+        chunks.append(mail(rng, rng.choice(['ok', 'ok', 'ok', 'bounce', 'size', 'body', 'mixed', 'syntax'])))
+        for _ in range(rng.choice([1, 1, 2])):
+            chunks.append(rcpt(rng, rng.choice(['ok', 'ok', 'ok', 'remote', 'no'])))
+        chunks.append(b'DATA\r\n')
+        target = rng.choice([db - 1, db, db, db + 1, db + 2]) if db and rng.random() < 0.5 else None
+        chunks.append(subm_payload(rng, hidden and rng.random() < 0.7, target))
+        if rng.random() < 0.15: chunks.append(rng.choice([b'RSET\r\n', b'NOOP\r\n', auth_line(rng, 'good')]))
+    if rng.random() < 0.3: chunks.append(b'QUIT\r\n')
+    return cfg, chunks
+
+
+def subm_gate_session(rng):
+    """(cfg, chunks): aimed at 'is MAIL FROM accepted on port 587?': every kind of relay list, AUTH before / after / failed / none,
+    repeated MAIL after a refusal (the cached decision), RSET, HELO/EHLO in between"""
+    cfg, entitled = subm_config(rng, qq='ok,ok,ok,ok')
+    chunks = [rng.choice([b'EHLO c.example.net\r\n', b'EHLO c.example.net\r\n', b'HELO c.example.net\r\n'])]
+    for _ in range(rng.choice([1, 2, 3])):
+        for _ in range(rng.choice([0, 0, 1, 2])):
+            chunks.append(auth_line(rng, rng.choice(['good', 'good', 'wrongpw', 'nopw', 'crash', 'mech', 'bare'])))
+        if rng.random() < 0.25: chunks.append(rng.choice([b'RSET\r\n', b'EHLO again.example.net\r\n', b'HELO again.example.net\r\n', b'NOOP\r\n']))
+        chunks.append(mail(rng, rng.choice(['ok', 'ok', 'bounce', 'nobracket', 'syntax', 'space', 'size'])))
+        if rng.random() < 0.3: chunks.append(mail(rng, 'ok'))       # again: after a refusal the cached decision answers, after an acceptance 503
+        for _ in range(rng.choice([1, 2])):
+            chunks.append(rcpt(rng, rng.choice(['ok', 'remote', 'remote', 'no'])))
+        chunks.append(b'DATA\r\n'); chunks.append(rng.choice([b'Subject: t\r\n\r\nbody\r\n.\r\n', b'From: <x@example.net>\r\nDate: d\r\n\r\nbody\r\n.\r\n']))
+    return cfg, chunks
